@@ -100,6 +100,10 @@ func (vc *VC) call(c *ssa.CallCommon, res *ssa.Call, pos token.Pos) SVal {
 			if r, ok := vc.intrinsic(f, args, rt, pos); ok {
 				return r
 			}
+			if f.Origin() == nil && vc.canInline(f) {
+				vc.nCalls++
+				return vc.inlineCall(f, key, args, pos)
+			}
 		}
 		return vc.applyContract(con, key, names, args, sig, rt, pos)
 	case *ssa.MakeClosure:
@@ -191,6 +195,7 @@ func (vc *VC) applyContract(con *Contract, key string, names []string, args []SV
 	for i, n := range names {
 		env.vars[n] = args[i]
 	}
+	vc.eng.aliasEnv(env, key)
 	if len(names) > 0 && sig.Recv() != nil || con.IsIface {
 		env.vars["recv"] = args[0]
 	}
@@ -248,6 +253,7 @@ func (vc *VC) applyContract(con *Contract, key string, names []string, args []SV
 		post.vars[k] = v
 	}
 	bindResults(post, sig, result)
+	vc.eng.aliasEnv(post, key)
 	vc.nallocCall(con, post, key)
 	// preserves cond: patterns  -> matching memories equal the pre-call ones when cond holds
 	for _, pc := range con.Preserves {
